@@ -292,17 +292,28 @@ def clause2 (tcp : Bool) (p : Policy) : Policy :=
 /-- A policy applies to a workload (sidecar or gateway) iff it lives in the root namespace or in the
     workload's namespace and: for a workload without the Gateway API gateway-name label, it has no
     targetRefs and its selector (if any) is a subset of the workload's labels; for a Gateway API
-    gateway, either it has no targetRefs and its selector matches, or one of its targetRefs names this
-    Gateway (same namespace). -/
+    gateway, either it has no targetRefs and its selector matches (never for a waypoint), or one of its
+    targetRefs names this Gateway (same namespace); for a waypoint also the Service / ServiceEntry the
+    chain is built for (policy in the service's namespace) or the waypoint GatewayClass (policy in the
+    root namespace). -/
 def applies (w : Workload) (p : Policy) : Bool :=
-  (p.ns == w.rootNs || p.ns == w.ns) &&
+  (p.ns == w.rootNs || p.ns == w.ns || w.service.any fun s => p.ns == s.2.1) &&
   (match lookupLabel gatewayNameLabel w.labels with
    | none => p.targetRefs.isEmpty && p.selector.all fun kv => w.labels.contains kv
    | some gw =>
-     if p.targetRefs.isEmpty then p.selector.all fun kv => w.labels.contains kv
+     if p.targetRefs.isEmpty then !w.waypoint && p.selector.all fun kv => w.labels.contains kv
      else p.targetRefs.any fun ref =>
-       w.ns == p.ns && (ref.2.2.2.isEmpty || ref.2.2.2 == w.ns) &&
-       ref.1 == gatewayGroup && ref.2.1 == "Gateway".toList && ref.2.2.1 == gw)
+       -- a waypoint enforces the policies attached to the Service / ServiceEntry it serves ...
+       (w.waypoint && refIs ref [] "Service".toList &&
+         w.service.any fun s => ref.2.2.1 == s.1 && p.ns == s.2.1 && s.2.2) ||
+       (w.waypoint && refIs ref istioNetworkingGroup "ServiceEntry".toList &&
+         w.service.any fun s => ref.2.2.1 == s.1 && p.ns == s.2.1 && !s.2.2) ||
+       -- ... the root-namespace policies attached to the waypoint GatewayClass ...
+       (p.ns == w.rootNs && w.waypoint && refIs ref gatewayGroup "GatewayClass".toList &&
+         ref.2.2.1 == waypointClassName) ||
+       -- ... and, like every Gateway API gateway, the policies attached to its own Gateway
+       (w.ns == p.ns && (ref.2.2.2.isEmpty || ref.2.2.2 == w.ns) &&
+         refIs ref gatewayGroup "Gateway".toList && ref.2.2.1 == gw))
 
 /-- Policies that are enforced with the given action (dry-run policies are not enforced). -/
 def enforced (a : Action) (ps : List Policy) : List Policy :=
